@@ -60,14 +60,31 @@ def sorted_scans(ctx, fi, it):
     return out
 
 
+def _rows_source(v, depth=0):
+    """The value iterates the rows of a table: frame.iterrows(), possibly numbered (enumerate) or re-packed by a comprehension."""
+    if v is None or depth > 3:
+        return False
+    if v.ty == 'DataFrameIterrows':
+        return True
+    if v.ty == 'enumerate':
+        return _rows_source(v.inner, depth + 1)
+    if v.ty in ('generator', 'list', 'tuple') and v.comp_over is not None:
+        return _rows_source(v.comp_over, depth + 1)
+    return False
+
+
 def combination_scans(fi, it):
     """for-loops over itertools.combinations(<frame>.iterrows(), 2): (loop, kind of pairing)."""
     out = []
-    for n in ast.walk(fi.node):
-        if isinstance(n, ast.For):
-            v = it.value_of(n.iter)
-            if v is not None and v.combos_of is not None and v.combos_of[1] is not None and v.combos_of[1].ty == 'DataFrameIterrows':
-                out.append((n, v.combos_of[0]))
+    from .C04 import functions_under
+    from .geo import _helper_like
+    fns = [fi] + [f for f in functions_under(it, fi.qualname, it.p) if f is not fi and _helper_like(f.qualname)]
+    for f in fns:
+        for n in ast.walk(f.node):
+            if isinstance(n, ast.For):
+                v = it.value_of(n.iter)
+                if v is not None and v.combos_of is not None and _rows_source(v.combos_of[1]):
+                    out.append((n, v.combos_of[0]))
     return out
 
 
@@ -181,11 +198,49 @@ def check(ctx):
         if v is not None and v.ty == 'tuple' and v.elts is not None and len(v.elts) == 2 and all(x.ty == 'Row' for x in v.elts):
             pair_appends.append(e)
     if not pair_appends:
+        # the pairs are stored in one go: self.collective = [(row_i, row_j) for pair in <filtered pairs>]
+        for e in uniq_events(it, {'store'}, under(COMP)):
+            v = e.get('value')
+            el = v.elem if (v is not None and v.ty in ('list', 'generator', 'tuple')) else None
+            if e['kind'] == 'attr' and el is not None and el.ty == 'tuple' and el.elts is not None and len(el.elts) == 2 and all(x.ty == 'Row' for x in el.elts) \
+                    and isinstance(e['node'], ast.Attribute) and e['node'].attr == 'collective':
+                pair_appends.append(dict(e, value=el, stored=v))
+    if not pair_appends:
         ctx.ob('R2', fi, 'collective.append', None, 'pair recording not recognised')
     for e in pair_appends:
         a = e['node']
         where = e['where']
         facts, complete = guard_facts(ctx, it, where.qualname, a)
+        # pairs that come out of a pipeline of generators: the guards of every stage's `yield` (and the `if` clauses of generator
+        # expressions) have filtered them; a stage that cannot be read makes the list of facts incomplete
+        pm_w = parent_map(where.node)
+        loop_ = pm_w.get(id(a))
+        while loop_ is not None and not isinstance(loop_, (ast.For, ast.AsyncFor)):
+            loop_ = pm_w.get(id(loop_))
+        src_ = it.cur(loop_.iter) if loop_ is not None else None
+        if e.get('stored') is not None:
+            src_ = e['stored']  # stored list: its items went through the stages recorded on the value
+        if src_ is not None and src_.ty in ('generator', 'list') and (src_.pipeline or src_.genfn):
+            for stage in (src_.pipeline or (('yield', src_.genfn),)):
+                if stage[0] == 'yield':
+                    ys = [y for y in it.events if y['tag'] == 'yield' and y['where'] is not None and y['where'].qualname == stage[1]]
+                    ys = list({id(y['node']): y for y in ys}.values())
+                    if len(ys) != 1:
+                        if len(ys) > 1:
+                            complete = False
+                        continue
+                    f_, ok_ = guard_facts(ctx, it, stage[1], ys[0]['node'])
+                    facts += f_
+                    complete = complete and ok_
+                elif stage[0] == 'ifs' and stage[1] is not None:
+                    from .common import _conj
+                    for c_ in stage[2].generators[0].ifs:
+                        for expr_, pol_ in _conj(c_, True):
+                            facts.append((it.value_of(expr_), pol_, expr_, stage[1]))
+                else:
+                    complete = False
+        elif src_ is not None and src_.ty in ('generator',) and loop_ is not None:
+            complete = False
         if where.qualname != COMP:
             # recorded inside a helper: add the conditions under which the helper is reached (one level)
             complete = False
